@@ -16,10 +16,10 @@ COMMON = [
 K_PROPS = {
     "C03": dict(assumptions=COMMON + KERNEL_ASSUMPTIONS + [
                     "tiny-std/src/allocator/dlmalloc.rs is compiled from the repository's file inside a wrapper module (include!); debug-assertions are off in the harness profile (check_malloc_state walks all bins after every call), overflow checks stay on",
-                    "OS model: mmap serves two page-aligned 256 KiB arenas with exact bookkeeping, refuses anything else with ENOMEM; mremap may only shrink in place; one injected failure where stated",
-                    "parts (1) arithmetic kernels and (2) single operations with symbolic arguments on the FRESH heap are solver verdicts over all values; part (3) executes LISTED concrete histories with a symbolic fill byte / probe index and is bounded execution of those histories only"],
-                outside=["every heap state other than the fresh one as the start of a symbolic operation (two symbolic-size operations in a row exceed 15-20 min / 30-40 GB: not attempted)",
-                         "histories not in the template list; tree-bin shapes beyond those the templates build; multi-threaded use through the global allocator; reallocation of large (mmapped) blocks"]),
+                    "OS model: mmap serves two page-aligned 64 KiB arenas of uninitialised (= arbitrary) memory with exact bookkeeping and refuses anything else with ENOMEM; mremap may only shrink in place; one injected failure where stated",
+                    "least_bit is checked under its call-site precondition x != 0 (non-empty bin map)"],
+                outside=["EVERY history longer than two allocations: free, realloc and any operation on a heap that already holds free chunks are NOT covered - a listed, fully concrete script of 5 operations already needs 10 min of symbolic execution, 8 million steps and 14-19 GB (the allocator masks pointer values for alignment, CBMC cannot fold them, every bin pointer read back from the arena becomes symbolic); ten such scripts were built, measured and removed",
+                         "therefore: disjointness / contents-intact across frees, reuse of freed space, coalescing, tree-bin rotations, realloc prefix preservation, heap usable after an OOM - the larger half of C03 - are outside what this check decides; multi-threaded use through the global allocator; large (mmapped) blocks"]),
     "C05": dict(assumptions=COMMON + KERNEL_ASSUMPTIONS + [
                     "tiny-std is compiled from /repo with features alloc, threaded, verif-hooks (hook commit 253aae5): thread::spawn is compiled without `symbols`, the thread panic handler is an ordinary function, get_tls_ptr reads a stand-in for the TLS register, and the panic handler's final munmap + exit are issued through the `sc` crate instead of inline asm",
                     "Kani has no threads: the schedule is a symbolic choice among the orders that do not commute (which of the two compare-exchanges on the sync flag comes first; whether the kernel's clear-child-tid write + wake lands before the parent's next step or while it is parked).  The reduction argument (the child's steps after its compare-exchange touch only its TLS block and its stack, the parent's join before parking only loads the exit futex) is in DESIGN.md section 14 and is part of the claim",
